@@ -2,6 +2,7 @@
 mod engine;
 mod gen;
 mod instr;
+mod lowlevel;
 mod problems;
 mod props;
 mod run;
@@ -86,6 +87,7 @@ fn main() {
     let known = load_known(&verif_dir);
     let code = dispatch!(id.as_str(), &ctx, &known, replay.as_deref(),
         "C03" => c03,
+        "C11" => c11,
         "C12" => c12,
         "C16" => c16,
         "C17" => c17,
